@@ -8,16 +8,36 @@
  *                                      n = 1..255, -(1000+k) &blocks[k], -2000 the ring object itself; codes may repeat
  *   modes                              (alone) print the flag -> mode table of muggle_ring_buffer_get_mode
  *   sched <spec>                       (see vsched.h)
+ *   clock <tick_ns> <jump_ns>          virtual clock on (vsched.h vs_clock_enable): time() / clock_gettime() /
+ *                                      gettimeofday() / nanosleep() of the scheduled threads use virtual time that
+ *                                      advances tick_ns per scheduling step and jump_ns whenever all runnable
+ *                                      threads spin
+ *   q <writer>:<k>:<ms> ...            writer thread <writer> stays quiet for <ms> virtual milliseconds before its
+ *                                      k-th message (vs_hold_self: suspended at its next scheduling point; no
+ *                                      event is logged, for the model it is just a schedule); needs `clock`
+ *   budget <steps>                     scheduler step budget for this case (default 20000)
+ *   types                              (alone) print sizeof / signedness of the struct fields and the exact prototypes the
+ *                                      model relies on (capacity, cursor, read_cursor; read / write / init signatures)
+ *   caps <n> <n> ...                   (alone) run muggle_ring_buffer_init for each requested capacity and print the
+ *                                      rounded capacity the code computes (or its refusal; "alloc-failed" when malloc
+ *                                      could not provide the blocks)
  * <pre> messages (ids 0..pre-1) are written by the main thread before the scheduled threads
- * start, so that the cursor equals idx0 mod capacity when the readers begin.
+ * start.  A reader may start at ANY index: idx0 names the ring position idx0 mod capacity, which holds
+ * the message with logical position rstart = pre - ((pre - idx0) mod capacity) (the cursor position itself
+ * when idx0 = pre mod capacity; an older, still valid message for a reader that joins late); a case in
+ * which that position has never been written (rstart < 0) is refused (F badcase).  A reader may stop
+ * before the writers are done (quota smaller than the number of messages).
  * Harness-owned plain state (all accessed only inside plain segments, which the scheduler runs
  * atomically): begun (tickets = message ids), consumed[r], delivered; the throttle lets a
- * writer begin message k only when k + 1 < min_r(next index of reader r) + capacity.
+ * writer begin message k only when k + 1 < min over the readers r that still have reads to do of
+ * (rstart[r] + consumed[r]) + capacity (no constraint when every reader has finished).
  * Output: the event trace, then summary lines "F ...". */
 #include "vdrv.h"
 #include "vsched/vsched.h"
 #include "muggle/c/sync/ring_buffer.h"
+#include "muggle/c/base/err.h"
 #include <unistd.h>
+#include <stddef.h>
 
 #define MAXMSG 4096
 #define PAYF(id) ((id) * 7 + 3)
@@ -25,7 +45,8 @@
 typedef struct { int val; int pad; } payload_t;
 
 static char sched[8192];
-static int have_rb, modes_only;
+static int have_rb, modes_only, types_only, caps_only;
+static char caps_line[VDRV_MAXLINE > 65536 ? 65536 : VDRV_MAXLINE];
 static int flag, capreq, throttle, pre;
 static int nw, nr, wcnt[VS_MAXT], rquota[VS_MAXT];
 static uint32_t ridx0[VS_MAXT];
@@ -35,6 +56,11 @@ static payload_t pay[MAXMSG];
 static volatile int begun, delivered, consumed[VS_MAXT];
 static int valcode[MAXMSG];
 static int once_mode;
+static long rstart[VS_MAXT];
+static int clk_on; static long long clk_tick, clk_jump;
+static long budget_steps;
+#define MAXQ 32
+static int nq, q_w[MAXQ], q_k[MAXQ]; static long long q_ms[MAXQ];
 
 /* the pointer value message id carries (messages are opaque void* for the ring) */
 static void *ptr_of(int id)
@@ -70,9 +96,12 @@ static int can_begin(void)
 	if (once_mode) lo = delivered;
 	else {
 		lo = -1;
-		for (int i = 0; i < nr; i++) if (lo < 0 || consumed[i] < lo) lo = consumed[i];
-		if (lo < 0) lo = 0;
-		lo += pre;
+		for (int i = 0; i < nr; i++)
+			if (consumed[i] < rquota[i]) {
+				long nx = rstart[i] + consumed[i];
+				if (lo < 0 || nx < lo) lo = nx;
+			}
+		if (lo < 0) return 1;
 	}
 	return (long)begun + 1 < lo + (long)rb.capacity;
 }
@@ -81,6 +110,7 @@ static void writer_thread(void *arg)
 {
 	int w = (int)(long)arg;
 	for (int j = 0; j < wcnt[w]; j++) {
+		for (int i = 0; i < nq; i++) if (q_w[i] == w && q_k[i] == j) vs_hold_self(q_ms[i] * 1000000LL);
 		while (throttle && !can_begin()) vs_yield_point("thr");
 		int id = begun++;
 		if (valcode[id] >= 0) pay[id].val = PAYF(id);
@@ -105,9 +135,10 @@ static void reader_thread(void *arg)
 
 static void case_begin(void)
 {
-	have_rb = modes_only = 0; nw = nr = 0;
+	have_rb = modes_only = types_only = caps_only = 0; nw = nr = 0;
 	for (int i = 0; i < MAXMSG; i++) valcode[i] = i;
 	strcpy(sched, "rand 1 50 0 0");
+	clk_on = 0; clk_tick = clk_jump = 0; budget_steps = 20000; nq = 0;
 }
 
 static void case_line(char *line)
@@ -116,6 +147,20 @@ static void case_line(char *line)
 	if (sscanf(line, "%31s", op) != 1) return;
 	if (strcmp(op, "sched") == 0) { snprintf(sched, sizeof(sched), "%s", line + 6); return; }
 	if (strcmp(op, "modes") == 0) { modes_only = 1; return; }
+	if (strcmp(op, "types") == 0) { types_only = 1; return; }
+	if (strcmp(op, "caps") == 0) { caps_only = 1; snprintf(caps_line, sizeof(caps_line), "%s", line + 4); return; }
+	if (strcmp(op, "clock") == 0) {
+		if (sscanf(line, "%*s %lld %lld", &clk_tick, &clk_jump) == 2) clk_on = 1;
+		return;
+	}
+	if (strcmp(op, "budget") == 0) { long b; if (sscanf(line, "%*s %ld", &b) == 1 && b > 0) budget_steps = b; return; }
+	if (strcmp(op, "q") == 0) {
+		char *p = line + 1; int used, w, k; long long ms;
+		while (nq < MAXQ && sscanf(p, "%d:%d:%lld%n", &w, &k, &ms, &used) == 3) {
+			q_w[nq] = w; q_k[nq] = k; q_ms[nq] = ms; nq++; p += used;
+		}
+		return;
+	}
 	if (strcmp(op, "rb") == 0) {
 		if (sscanf(line, "%*s %d %d %d %d", &flag, &capreq, &throttle, &pre) == 4) have_rb = 1;
 		return;
@@ -158,6 +203,36 @@ static void case_end(void)
 		}
 		return;
 	}
+	if (types_only) {
+		/* (sizeof, is-signed) of the fields the model treats as 32-bit machine integers, and whether the public
+		 * functions have exactly the prototypes the model transcribes (index: uint32_t) */
+#define FIELD(name) printf("F field " #name " %d %d\n", (int)sizeof(rb.name), ((__typeof__(rb.name))-1) < 0 ? 1 : 0)
+		FIELD(capacity); FIELD(cursor); FIELD(read_cursor); FIELD(flag); FIELD(write_mode); FIELD(read_mode);
+#undef FIELD
+		printf("F sig read %d\n", _Generic(&muggle_ring_buffer_read,
+			void *(*)(muggle_ring_buffer_t *, uint32_t): 1, default: 0));
+		printf("F sig write %d\n", _Generic(&muggle_ring_buffer_write,
+			int (*)(muggle_ring_buffer_t *, void *): 1, default: 0));
+		printf("F sig init %d\n", _Generic(&muggle_ring_buffer_init,
+			int (*)(muggle_ring_buffer_t *, uint32_t, int): 1, default: 0));
+		printf("F block %d %d %d\n", (int)sizeof(muggle_ring_buffer_block_t),
+			(int)offsetof(muggle_ring_buffer_block_t, data), (int)sizeof(((muggle_ring_buffer_block_t *)0)->data));
+		return;
+	}
+	if (caps_only) {
+		char *p = caps_line; int used; unsigned long long n;
+		while (sscanf(p, "%llu%n", &n, &used) == 1) {
+			muggle_ring_buffer_t t;
+			int rc = muggle_ring_buffer_init(&t, (muggle_sync_t)n, 0);
+			if (rc == 0) {
+				printf("F cap %llu 0 %lld\n", n, (long long)t.capacity);
+				muggle_ring_buffer_destroy(&t);
+			} else if (rc == MUGGLE_ERR_MEM_ALLOC) printf("F cap %llu alloc-failed\n", n);
+			else printf("F cap %llu %d -1\n", n, rc);
+			p += used;
+		}
+		return;
+	}
 	if (!have_rb || nw + nr <= 0 || nw + nr > VS_MAXT) { printf("F badcase\n"); return; }
 	long total = pre;
 	for (int i = 0; i < nw; i++) total += wcnt[i];
@@ -167,11 +242,18 @@ static void case_end(void)
 	if (rc != 0) return;
 	printf("F cap=%d wmode=%d rmode=%d\n", (int)rb.capacity, rb.write_mode, rb.read_mode);
 	once_mode = rb.read_mode == 3;
+	for (int i = 0; i < nr; i++) {
+		/* logical position of the message the reader's first index names (read-once ignores the index) */
+		rstart[i] = (long)pre - (long)(((uint32_t)pre - ridx0[i]) & (uint32_t)(rb.capacity - 1));
+		if (!once_mode && rstart[i] < 0) { printf("F badcase\n"); muggle_ring_buffer_destroy(&rb); return; }
+	}
 	begun = delivered = 0;
 	memset((void *)consumed, 0, sizeof(consumed));
 	memset(pay, 0, sizeof(pay));
 	vs_reset();
 	vs_set_schedule(sched);
+	vs_set_budget(budget_steps);
+	if (clk_on) vs_clock_enable(1700000000LL * 1000000000LL, clk_tick, clk_jump);
 	/* pre-written messages: outside the scheduler the hooks are transparent */
 	for (int i = 0; i < pre; i++) {
 		int id = begun++;
